@@ -984,7 +984,12 @@ def run(repo, R):
                 where=ff.where(node), expected="transform=transform" + (", deriv_type=deriv_type" if "deriv_type" in ff.params else ""))
     R.floor("FWD", nsite, 10, "internal call sites of density.py")
     R.extra["internal_call_sites"] = nsite
-    R.assumptions += ["evaluate_basis / evaluate_deriv_basis return the orbital values and their derivatives (C05), axes (orbitals, points)",
+    # every density-derived field is a sum of products of orbital values and derivatives: it equals its definition only if those are
+    # exact (C05, every order - evaluate_deriv_density takes arbitrary orders)
+    from ..report import compose
+    from . import c05
+    compose(R, "C05", c05.run, repo, why="densities are products of evaluated orbitals and their derivatives")
+    R.assumptions += ["evaluate_basis / evaluate_deriv_basis return the orbital values and their derivatives (C05, composed into this check), axes (orbitals, points)",
                       "G(p,q)=G(q,p) for a symmetric density matrix (validated by the code before use)",
                       "loops over literal order tables and over range(L_k + 1) for constant L are unrolled (constant propagation)"]
     return ("TERMALG on density.py: orbital-level plumbing (P.dot(B(q)) * B(p), sum over the orbital axis; the Hessian's "
